@@ -1,7 +1,7 @@
 (** C16 — model of
       internal/keystore/key_store.go   createKeyStore / verifyAndBuildKeyStore / GetKey / Entries
       internal/keystore/entry.go       Entry.JWK / JOSEAlgorithm
-      internal/rules/mechanisms/finalizers/jwt_signer.go   load / OnChanged / Sign / Keys / Hash
+      internal/rules/mechanisms/finalizers/jwt_signer.go   load / OnChanged / signWithHash (Sign is its lock-free wrapper) / Keys / Hash
       internal/rules/mechanisms/finalizers/jwt_finalizer.go  newJWTFinalizer / Execute / calculateCacheKey
       internal/keyholder/registry.go + internal/handler/management/handler.go  (JWKS = the signer's Keys())
     as they are.  Go panics are explicit ([Panic]).
@@ -354,10 +354,11 @@ Definition key_of (fx : fixes) (c : config) (st : state) (q : req) : ckey :=
 
 (** jwtFinalizer.Execute for a non-nil subject at time [now], on the prototype, the twin
     or a variant ([c] = its effective configuration).  Execute enters the signer's read
-    lock twice: in Hash() for the cache key, and — after the cache lookup — in Sign().
+    lock twice: in Hash() for the cache key, and — after the cache lookup — in signWithHash().
     [mids] are the key-store reloads that land between the two (none in a quiet system).
-    As the code is (C16-F2), the fresh token is stored under the key computed *before*
-    them; with the repair under the key of the JWK Sign used. *)
+    Before 186d696 (fx_F2 = false, C16-F2) the fresh token was stored under the key computed
+    *before* them; the code as it is (fx_F2 = true) files it under the key of the JWK
+    signWithHash used. *)
 Definition exec (fx : fixes) (c : config) (w : world) (q : req) (now : Z) (mids : list pem_file)
   : world * res token :=
   let key0 := key_of fx c (w_st w) q in
